@@ -88,7 +88,7 @@ func explain(schema, inst any, implValid bool) []string {
 }
 
 func (p *c01) Run(w *lib.Worker, idx int, r *lib.Rand) lib.Case {
-	g, doc, instRaw := genPair(r, gen.SchemaOpts{MaxDepth: 4, Refs: true, FormatAnyType: true, SpecialNames: true})
+	g, doc, instRaw := genPair(r, gen.SchemaOpts{MaxDepth: 4, Refs: true, FormatAnyType: true, SpecialNames: true, EmptyNames: true})
 	st, it := gen.JSON(doc), gen.JSON(instRaw)
 	schema, err1 := model.Parse(st)
 	inst, err2 := model.Parse(it)
